@@ -83,6 +83,7 @@ class Sim:
         self.stop_when_main_done = True
         self.trace_enabled = True
         self.tagger = None
+        self.trace_hook = None
 
     # ------------------------------------------------------------------ labelling / tracing
     def label(self, obj, name):
@@ -126,6 +127,8 @@ class Sim:
         if self.tagger is not None:
             ev.update(self.tagger())
         self.trace.append(ev)
+        if self.trace_hook is not None:
+            self.trace_hook(ev)
 
     def progress(self):
         self.last_progress_clock = self.clock
@@ -307,6 +310,7 @@ class Sim:
                 sim.log("event.set", self)
                 self._flag = True
                 sim.progress()
+                sim.point("after-set")      # a woken waiter may run before the setter's next plain statement
 
             def clear(self):
                 sim.point()
@@ -345,6 +349,10 @@ class Sim:
                 sim.log("lock.release", self)
                 self._owner = None
                 sim.progress()
+                # second scheduling point *after* the effect: plain reads of shared fields are not
+                # scheduling points, so code that leaves a critical section and then looks at shared
+                # state (e.g. `len(self._waiters)` outside the mutex) must be preemptible right here
+                sim.point("after-release")
 
             def locked(self):
                 return self._owner is not None
@@ -366,6 +374,7 @@ class Sim:
                 sim.log("queue.put", self, item=sim.item_id(item))
                 self._q.append(item)
                 sim.progress()
+                sim.point("after-put")
 
             def put_nowait(self, item):
                 self.put(item)
@@ -533,6 +542,8 @@ class Sim:
                     if fut._state == "CANCELLED":
                         continue
                     fut._state = "RUNNING"
+                    sim.log("pool.begin", None, pool=self._prefix,
+                            idx=next((getattr(a, "index", None) for a in args if hasattr(a, "index") and hasattr(a, "func")), None))
                     self._running += 1
                     self.max_running = max(self.max_running, self._running)
                     try:
